@@ -28,11 +28,13 @@ import (
 const vrtPath = "corebgpverif/vrt"
 
 var shimOf = map[string]string{
-	"sync":        "corebgpverif/shim/sync",
-	"time":        "corebgpverif/shim/time",
-	"context":     "corebgpverif/shim/context",
-	"net":         "corebgpverif/shim/net",
-	"sync/atomic": "corebgpverif/shim/atomic",
+	"sync":         "corebgpverif/shim/sync",
+	"time":         "corebgpverif/shim/time",
+	"context":      "corebgpverif/shim/context",
+	"net":          "corebgpverif/shim/net",
+	"sync/atomic":  "corebgpverif/shim/atomic",
+	"math/rand":    "corebgpverif/shim/rand",
+	"math/rand/v2": "corebgpverif/shim/randv2",
 }
 
 func fatalf(code int, f string, a ...any) {
@@ -445,7 +447,11 @@ func (r *rewriter) post(c *astutil.Cursor) bool {
 		p, _ := strconv.Unquote(n.Path.Value)
 		if sh, ok := shimOf[p]; ok {
 			if n.Name == nil {
-				n.Name = ast.NewIdent(p[strings.LastIndexByte(p, '/')+1:])
+				name := p[strings.LastIndexByte(p, '/')+1:]
+				if p == "math/rand/v2" {
+					name = "rand"
+				}
+				n.Name = ast.NewIdent(name)
 			}
 			n.Path = &ast.BasicLit{Kind: token.STRING, Value: strconv.Quote(sh)}
 			n.EndPos = 0
